@@ -277,7 +277,11 @@ def arg_alphabet(names, tier):
         forms.append(('kw:' + n, n + '=v', probes, ('k', n)))
     forms.append(('star', '*t', [(0, 's3', None), (1, 's5', None), (2, 's5', None)], ('s',)))
     forms.append(('dstar', '**d', [(0, 's3', None), (2, 's6', None), (3, 's6', None)], ('d',)))
-    forms.append(('id', UNKNOWN_IDENT, [(0, 's3', None), (1, 's4', UNKNOWN_IDENT)], ('p',)))
+    # an identifier that is no parameter but *extends* the first parameter name: the part before
+    # the cursor is what counts (`f(ab|q`), the whole token when the cursor stands behind it
+    ident = (names[0] if names else '') + UNKNOWN_IDENT
+    forms.append(('id', ident, [(0, 's3', None)] + [(i, 's4', ident[:i])
+                                                    for i in range(1, len(ident) + 1)], ('p',)))
     return forms
 
 
